@@ -49,8 +49,12 @@ class SchemaField:
         Raises:
             FIXMessageError: raised if validation failed
         """
-        assert isinstance(value, str), "value must be a string"
-        assert value, "empty value"
+        if not isinstance(value, str):
+            raise FIXMessageError(
+                f"{self} value must be a string, got {type(value)}"
+            )
+        if not value:
+            raise FIXMessageError(f"{self} empty value")
 
         if self.values:
             if value not in self.values:
@@ -399,6 +403,10 @@ class SchemaGroup(SchemaSet):
                 field = tag_fields[t]
 
                 if isinstance(field, SchemaField):
+                    if fmsg.is_group(t):
+                        raise FIXMessageError(
+                            f"fixmessage={groups}, tag={t} must be a tag, got group"
+                        )
                     field.validate_value(v)
                 else:
                     # Nested group!?
